@@ -19,6 +19,7 @@ import XmlDiffModel.Model.Placeholder
 import XmlDiffModel.Model.XmlFormat
 import XmlDiffModel.Model.Dmp
 import XmlDiffModel.Model.Engine
+import XmlDiffModel.Model.Project
 import Std.Data.HashMap
 open XmlDiffModel
 
@@ -509,6 +510,14 @@ def doXmlFmtE (args : List String) : String :=
     | _, _, _ => "bad-op"
   | _ => "bad-op"
 
+/-- proj <tree>: the accept-all and the reject-all projection of an output tree (`Fin.accFT`, `Fin.rejFT`) -/
+def doProj (args : List String) : String :=
+  match args with
+  | [ts] => match decTree ts with
+    | some t => "ok " ++ encTree (Fin.accFT t) ++ " | " ++ encTree (Fin.rejFT t)
+    | none => "bad-op"
+  | _ => "bad-op"
+
 /-- wsnorm <text>: `cleanup_whitespace(text).strip()` -/
 def doWsNorm (args : List String) : String :=
   match args with
@@ -571,6 +580,7 @@ def handle (line : String) : String :=
   | "xmlfmt" :: args => doXmlFmt args
   | "xmlfmte" :: args => doXmlFmtE args
   | "wsnorm" :: args => doWsNorm args
+  | "proj" :: args => doProj args
   | "dmp" :: args => doDmp args
   | "blank" :: args => doBlank args
   | "parse" :: args => doParse args
